@@ -106,102 +106,217 @@ def check_mpmath_tables(r, repo, rule="R13.1"):
 
 
 def check_float2fraction_algebra(r, repo, rule="R13.3"):
-    """Symbolic (power-of-two algebra) evaluation of the numpy.floating branch of float2fraction, per format, per value class."""
-    from sa.pow2alg import Val, Exp, evaluate as pev, NotAlgebraic
+    """The numpy.floating branch of float2fraction is interpreted (sa/absint.py) on an abstract float whose bit pattern is the
+    field list [fraction | exponent | sign] with symbolic field values; masks and shifts act on the field list, the class
+    tests (`epart == 0`, `e < 0`, ...) fork in the linear domain (sa/linint.py), shifts by symbolic amounts become powers
+    of two with affine exponents (sa/pow2alg.py).  On every feasible path that denotes a finite value the returned
+    num/denom must equal (-1)^s * (2^fsz + F) * 2^(E - bias - fsz) (normal), (-1)^s * F * 2^(emin - fsz) (subnormal) or 0,
+    identically in the field symbols F, E: that is exactness for every finite bit pattern of the format."""
+    from sa.absint import Interp, ModRef, Unsupported as IUnsupported, PyRaise, _Return
+    from sa.linint import Lin, Paths
+    from sa.pow2alg import Val, Exp
+    from sa.symint import SInt, SFrac, BitInt, to_int
 
     f = repo.func(REL, "float2fraction")
+    if not f.args.args:
+        raise AnalysisError("float2fraction: no parameter")
+    arg = f.args.args[0].arg
     branch = None
     for n in f.body:
         if isinstance(n, ast.If):
             m = n
             while m is not None:
-                if isinstance(m.test, ast.Call) and dotted(m.test.func) == "isinstance" and norm_src(m.test.args[1]) == "numpy.floating":
+                t = m.test
+                if isinstance(t, ast.Call) and dotted(t.func) == "isinstance" and dotted(t.args[0]) == arg and norm_src(t.args[1]) == "numpy.floating":
                     branch = m
                 m = m.orelse[0] if len(m.orelse) == 1 and isinstance(m.orelse[0], ast.If) else None
     if branch is None:
         raise AnalysisError("float2fraction: numpy.floating branch not found")
+
+    class FInfo:
+        __absint_host__ = True
+
+        def __init__(self, bits):
+            p = PREC[bits]
+            self.nexp, self.negep, self.machep, self.minexp, self.maxexp, self.nmant, self.bits = bits - p, -p, 1 - p, EMIN[bits], EMAX[bits] + 1, p - 1, bits
+
+    class FArg:
+        __absint_host__ = True
+
+        def __init__(self, bits, sign):
+            self.bits, self.sign = bits, sign
+            self.__absint_type__ = ModRef("ext", f"numpy.float{bits}")
+
+        def view(self, t=None):
+            fsz = PREC[self.bits] - 1
+            esz = self.bits - PREC[self.bits]
+            return BitInt([("F", 0, fsz), ("E", fsz, esz), (self.sign, fsz + esz, 1)])
+
+        def __lt__(self, o):
+            if o != 0:
+                raise TypeError("comparison with a non-zero value")
+            return self.sign == 1
+
+        def __ge__(self, o):
+            return not self.__lt__(o)
+
+    ext = {"numpy.finfo": lambda dt: FInfo(int(dt.name.replace("numpy.float", ""))), "fractions.Fraction": SFrac,
+           "numpy.signbit": lambda v: v.sign == 1}
+    for w in (8, 16, 32, 64):
+        ext[f"numpy.uint{w}"] = lambda v=0: v
+        ext[f"numpy.int{w}"] = lambda v=0: v
+    n_paths = 0
     for bits in BITS:
         p, emax, emin = PREC[bits], EMAX[bits], EMIN[bits]
-        finfo = {"fi.nexp": Val.const(bits - p), "fi.negep": Val.const(-p), "fi.minexp": Val.const(emin), "fi.maxexp": Val.const(emax + 1), "fi.machep": Val.const(1 - p)}
-        for s_val in (0, 1):
-            env = dict(finfo)
-            env["one"] = Val.const(1)
-            env["s"] = Val.const(s_val)
-            env["fpart"] = Val.sym("fpart")
-            env["epart"] = Val.sym("epart")
-            results = {}
+        fsz, esz = p - 1, bits - p
+        emask = (1 << esz) - 1
+        F, E = Lin.sym("F"), Lin.sym("E")
+        facts = [(F, ">="), (Lin({}, (1 << fsz) - 1) - F, ">="), (E, ">="), (Lin({}, emask) - E, ">=")]
+        for sign in (0, 1):
+            sigma = 1 - 2 * sign
+            want_normal = (Val.const(sigma) * (Val.pow2(Exp({}, fsz)) + Val.sym("F"))) * Val.pow2(Exp({"E": 1}, -emax - fsz))
+            want_sub = Val.const(sigma) * Val.sym("F") * Val.pow2(Exp({}, emin - fsz))
 
-            def walk(stmts, conds):
-                for st in stmts:
-                    if isinstance(st, ast.Assign) and len(st.targets) == 1 and isinstance(st.targets[0], ast.Name):
-                        nm = st.targets[0].id
-                        if nm in ("fpart", "epart", "s", "i", "u", "dtype", "fi", "itype"):
-                            continue
-                        try:
-                            env[nm] = pev(st.value, env)
-                        except NotAlgebraic:
-                            env.pop(nm, None)
-                    elif isinstance(st, ast.If):
-                        node = st
-                        while True:
-                            saved = dict(env)
-                            walk(node.body, conds + [norm_src(node.test)])
-                            if "num" in env and "denom" in env:
-                                results[" & ".join(conds + [norm_src(node.test)])] = (env["num"], env["denom"])
-                            env.clear()
-                            env.update(saved)
-                            if len(node.orelse) == 1 and isinstance(node.orelse[0], ast.If):
-                                conds = conds + ["not " + norm_src(node.test)]
-                                node = node.orelse[0]
-                                continue
-                            saved = dict(env)
-                            walk(node.orelse, conds + ["not " + norm_src(node.test)])
-                            if "num" in env and "denom" in env:
-                                results[" & ".join(conds + ["not " + norm_src(node.test)])] = (env["num"], env["denom"])
-                            env.clear()
-                            env.update(saved)
-                            break
-
-            walk(branch.body, [])
-            fsz = p - 1
-            bias = emax
-            sigma = 1 - 2 * s_val
-            want_normal = (Val.const(sigma) * (Val.pow2(Exp({}, fsz)) + Val.sym("fpart"))) * Val.pow2(Exp({"epart": 1}, -bias - fsz))
-            want_sub = Val.const(sigma) * Val.sym("fpart") * Val.pow2(Exp({}, emin - fsz))
-            seen = 0
-            for cond, (num, den) in results.items():
+            def run():
+                I = Interp(repo)
+                I.ext_calls = ext
+                env = {arg: FArg(bits, sign), "int": to_int}
                 try:
-                    val = num.divide(den)
-                except NotAlgebraic as e:
-                    raise AnalysisError(f"float2fraction[{cond}]: {e}")
-                c = cond.replace(" ", "")
-                if "epart==0andfpart==0" in c and not c.startswith("not"):
-                    want, cls = Val(), "zero"
-                elif c.endswith("epart==0"):
-                    want, cls = want_sub, "subnormal"
-                    val = val.subst_exp("epart", 0)
-                elif "epart==emaskandfpart==0" in c and not c.endswith("e<0"):
-                    if c.endswith("epart==emaskandfpart==0"):
-                        continue  # infinity: not a finite value
-                    want, cls = want_normal, "normal"
+                    I.exec_block(branch.body, env, REL)
+                    got = None
+                except _Return as ret:
+                    got = ret.v
+                ctx = Paths.current()
+                e_is0 = ctx.decide(E, "==") if True else None
+                if e_is0:
+                    cls = "zero" if ctx.decide(F, "==") else "subnormal"
+                elif ctx.decide(E - emask, "=="):
+                    cls = "non-finite"
                 else:
-                    want, cls = want_normal, "normal" + (" (e < 0)" if c.endswith("e<0") and not c.endswith("note<0") else " (e >= 0)")
-                seen += 1
-                ok = val == want
-                r.ob(rule, f"{REL}::float2fraction float{bits} sign={s_val} {cls}", ok,
-                     f"for {cls} numbers the branch [{cond[-60:]}] returns {val!r}; the IEEE binary{bits} value is {want!r}", loc(REL, branch),
-                     sample=dict(rule=rule, format=f"float{bits}", cls=cls, value=repr(val)) if s_val == 0 else None)
-            if seen < 3:
-                raise AnalysisError(f"float2fraction float{bits}: only {seen} value-class branches recognised")
-    # the field extraction itself: fpart = low fsz bits, epart = next esz bits
-    env2 = {}
-    for st in ast.walk(branch):
-        if isinstance(st, ast.Assign) and isinstance(st.targets[0], ast.Name):
-            env2[st.targets[0].id] = norm_src(st.value)
-    ok = (env2.get("fmask") == "itype((one << fsz) - one)" and env2.get("emask") == "itype((one << esz) - one)" and env2.get("fpart") == "int(u & fmask)"
-          and env2.get("epart") == "int(u >> fsz & emask)" and env2.get("u") == "i & umask" and env2.get("umask") == "itype((one << esz + fsz) - one)")
-    r.ob(rule, f"{REL}::float2fraction field extraction", ok, f"fmask={env2.get('fmask')} emask={env2.get('emask')} fpart={env2.get('fpart')} epart={env2.get('epart')} u={env2.get('u')}", loc(REL, branch))
-    r.ob(rule, f"{REL}::float2fraction exponent", env2.get("e") == "epart + fi.minexp - 1", f"e = {env2.get('e')}", loc(REL, branch))
+                    cls = "normal"
+                return got, cls
+
+            bad = {}
+            seen = set()
+            try:
+                for ctx, (got, cls) in Paths.explore(run, base_facts=facts):
+                    n_paths += 1
+                    if cls == "non-finite":
+                        continue
+                    seen.add(cls)
+                    if not isinstance(got, SFrac):
+                        bad.setdefault(cls, (ctx.describe(), repr(got), "a Fraction"))
+                        continue
+                    val = got.v
+                    if cls in ("zero", "subnormal"):
+                        val = val.subst_exp("E", 0)
+                    want = Val() if cls == "zero" else want_sub if cls == "subnormal" else want_normal
+                    if cls == "zero":
+                        # F == 0 on this path
+                        val = Val([((tuple(m for m in mono if m != "F"), e), c) for mono, e, c in val.items() if "F" not in mono])
+                    if not (val == want):
+                        bad.setdefault(cls, (ctx.describe(), repr(val), repr(want)))
+            except (IUnsupported, PyRaise, TypeError) as e:
+                msg = str(getattr(e, "what", e))
+                if "cuts through the field" in msg:
+                    r.ob(rule, f"{REL}::float2fraction float{bits} sign={sign} field extraction", False,
+                         f"{msg}: the masks/shifts do not follow the IEEE layout (fraction {fsz} bits, exponent {esz} bits, sign 1 bit)", loc(REL, branch))
+                    continue
+                raise AnalysisError(f"float2fraction numpy.floating branch is not interpretable (float{bits}, sign bit {sign}): {msg}")
+            for cls in ("zero", "subnormal", "normal"):
+                if cls not in seen:
+                    raise AnalysisError(f"float2fraction float{bits}: no feasible path for {cls} values")
+                if cls in bad:
+                    path, got, want = bad[cls]
+                    r.ob(rule, f"{REL}::float2fraction float{bits} sign={sign} {cls}", False,
+                         f"on the path [{path}] (F, E: fraction and exponent fields) the result is {got}; the IEEE binary{bits} value is {want}", loc(REL, branch))
+                else:
+                    r.ob(rule, f"{REL}::float2fraction float{bits} sign={sign} {cls}", True, "every feasible path returns the exact IEEE value", loc(REL, branch))
+    r.info(rule, f"float2fraction: {n_paths} feasible paths interpreted (3 formats x 2 signs)")
+
+
+def check_float2mpf(r, repo, rule="R13.4"):
+    """The finite branch of float2mpf is interpreted on a symbolic float (frexp -> mantissa M, exponent X): the pair handed to
+    from_man_exp must satisfy man * 2**exp == M * 2**X identically, and the normalisation precision must be the float's own
+    precision (or absent), never the hosting context's."""
+    from sa.absint import Interp, ModRef, Unsupported as IUnsupported, PyRaise, _Return
+    from sa.linint import Paths
+    from sa.pow2alg import Val, Exp
+    from sa.symint import SInt, to_int
+
+    fm = repo.func(REL, "float2mpf")
+    params = [a.arg for a in fm.args.args]
+    if len(params) != 2:
+        raise AnalysisError("float2mpf: expected parameters (ctx, x)")
+    cname, xname = params
+    branch = None
+    for n in ast.walk(fm):
+        if isinstance(n, ast.If) and isinstance(n.test, ast.Call) and dotted(n.test.func) == "numpy.isfinite" and n.test.args and dotted(n.test.args[0]) == xname:
+            branch = n
+    if branch is None:
+        raise AnalysisError("float2mpf: `numpy.isfinite(x)` branch not found")
+    CTXPREC = "<precision of the hosting mpmath context>"
+
+    class X:
+        __absint_host__ = True
+
+        def __init__(self, bits):
+            self.bits = bits
+
+    class Mpf:
+        __absint_host__ = True
+
+        def __init__(self, man, exp, prec=None, rnd=None, *rest, **kw):
+            self.man, self.exp, self.prec, self.rnd = man, exp, kw.get("prec", prec), kw.get("rnd", rnd)
+            self._mpf_ = (0, man, exp, 0)
+
+    class Ctx:
+        __absint_host__ = True
+        _prec_rounding = [CTXPREC, "n"]
+        prec = CTXPREC
+
+        def ldexp(self, m, k):
+            return SInt(m.v * Val.pow2(k._exp() if isinstance(k, SInt) else Exp({}, int(k))))
+
+        def make_mpf(self, v):
+            return v
+
+        def isfinite(self, v):
+            return True
+
+    for bits in BITS:
+        p = PREC[bits]
+
+        def run():
+            I = Interp(repo)
+            I.ext_calls = {"numpy.frexp": lambda v: (SInt.sym("M"), SInt.sym("X")), "mpmath.libmp.from_man_exp": Mpf}
+            I.globals_cache[(REL, "get_precision")] = lambda v: p
+            env = {cname: Ctx(), xname: X(bits), "int": to_int}
+            try:
+                I.exec_block(branch.body, env, REL)
+                return None
+            except _Return as ret:
+                return ret.v
+
+        try:
+            paths = list(Paths.explore(run))
+        except (IUnsupported, PyRaise, TypeError) as e:
+            raise AnalysisError(f"float2mpf finite branch is not interpretable (float{bits}): {getattr(e, 'what', e)}")
+        for ctx, got in paths:
+            if not isinstance(got, Mpf):
+                raise AnalysisError(f"float2mpf: the finite branch returns {got!r}, not the result of from_man_exp")
+            man = got.man.v if isinstance(got.man, SInt) else Val.const(got.man)
+            try:
+                ex = got.exp._exp() if isinstance(got.exp, SInt) else Exp({}, int(got.exp))
+                total = man * Val.pow2(ex)
+                ok = total == Val.sym("M") * Val.pow2(Exp({"X": 1}))
+                detail = f"man * 2**exp = {total!r}; frexp gives mantissa M and exponent X, the value is M * 2**X"
+            except TypeError as e:
+                ok, detail = False, str(e)
+            r.ob(rule, f"{REL}::float2mpf float{bits} man * 2**exp", ok, detail, loc(REL, fm))
+            okp = got.prec is None or got.prec == p
+            r.ob(rule, f"{REL}::float2mpf float{bits} normalisation precision", okp,
+                 f"from_man_exp is given precision {got.prec!r}; the float's own precision is {p} (a smaller context precision rounds the significand, the mpf no longer equals the float)", loc(REL, fm))
 
 
 def run(repo, tier):
@@ -213,8 +328,8 @@ def run(repo, tier):
     )
     r.trusted_base = ["Python ast", "IEEE-754 binary16/32/64 parameters"]
     r.rule("R13.2", "float2expansion subtracts each word in the accumulator's own type (a Python float minus a numpy scalar is computed in the scalar's narrower type)", floor=1)
-    r.rule("R13.4", "float2mpf: the power of two applied to the mantissa is subtracted from the exponent (man * 2**exp == mantissa * 2**exponent)", floor=1)
-    r.rule("R13.3", "float2fraction decodes the IEEE fields exactly: for every finite bit pattern num/denom equals (-1)^s * significand * 2^exponent", floor=12)
+    r.rule("R13.4", "float2mpf: man * 2**exp == mantissa * 2**exponent identically, normalised to the float's own precision", floor=6)
+    r.rule("R13.3", "float2fraction decodes the IEEE fields exactly: for every finite bit pattern num/denom equals (-1)^s * significand * 2^exponent", floor=18)
     r.rule("R13.1", "format tables agree with IEEE-754 binary16/32/64 (widths, exponent/significand bits, precision, exponent ranges)", floor=30)
     n = check_format_dicts(r, repo)
     n += check_mpmath_tables(r, repo)
@@ -236,56 +351,5 @@ def run(repo, tier):
          f"`{norm_src(upd[0])}`: q may be a Python float (number2expansion accepts `float`); under NumPy's weak-scalar promotion `python_float - numpy.{'{dtype}'}` is "
          "computed in the narrower dtype, the residual rounds to 0 and the expansion loses its tail (value no longer equals the input)", loc(REL, upd[0]))
     check_float2fraction_algebra(r, repo)
-    # R13.4 float2mpf exponent bookkeeping
-    from sa.pow2alg import Val, Exp, evaluate as pev, as_exp, NotAlgebraic
-    fm = repo.func(REL, "float2mpf")
-    env3 = {"mantissa": Val.sym("mantissa"), "exponent": Val.sym("exponent"), "prec": Val.sym("prec")}
-    got = {}
-    for st in ast.walk(fm):
-        if isinstance(st, ast.Assign) and isinstance(st.targets[0], ast.Name) and st.targets[0].id in ("man_", "exp_", "man", "exp"):
-            v = st.value
-            try:
-                if isinstance(v, ast.Call) and (dotted(v.func) or "").endswith("ldexp") and len(v.args) == 2:
-                    got[st.targets[0].id] = pev(v.args[0], env3) * Val.pow2(as_exp(pev(v.args[1], env3)))
-                else:
-                    got[st.targets[0].id] = pev(v, {**env3, **got})
-            except NotAlgebraic:
-                pass
-    if "man_" not in got or "exp_" not in got:
-        raise AnalysisError("float2mpf: man_/exp_ not recognised")
-    try:
-        total = got["man_"] * Val.pow2(as_exp(got["exp_"]))
-        ok = total == Val.sym("mantissa") * Val.pow2(Exp({"exponent": 1}))
-        detail = f"man_ * 2**exp_ = {total!r}, expected mantissa * 2**exponent"
-    except NotAlgebraic as e:
-        ok, detail = False, str(e)
-    r.ob("R13.4", f"{REL}::float2mpf man * 2**exp", ok, detail, loc(REL, fm))
-    # the mpf is normalised to the float's own precision (or not rounded at all), never to the context's
-    own_prec = set()
-    for st in ast.walk(fm):
-        if isinstance(st, ast.Assign) and isinstance(st.value, ast.Call) and (dotted(st.value.func) or "").endswith("get_precision") \
-                and len(st.value.args) == 1 and dotted(st.value.args[0]) == "x":
-            own_prec |= {t.id for t in st.targets if isinstance(t, ast.Name)}
-    fme = [c for c in ast.walk(fm) if isinstance(c, ast.Call) and (dotted(c.func) or "").endswith("from_man_exp")]
-    if not fme:
-        raise AnalysisError("float2mpf: from_man_exp call not found")
-    for c in fme:
-        starred = any(isinstance(a, ast.Starred) for a in c.args) or any(kw.arg is None for kw in c.keywords)
-        prec_arg = c.args[2] if len(c.args) > 2 else next((kw.value for kw in c.keywords if kw.arg == "prec"), None)
-        if starred:
-            ok, detail = False, f"`{norm_src(c)}` takes its precision/rounding from an unpacked sequence; a context precision below the float's precision rounds the significand"
-        elif prec_arg is None:
-            ok, detail = True, "from_man_exp without a precision does not round"
-        else:
-            ok = isinstance(prec_arg, ast.Name) and prec_arg.id in own_prec
-            detail = f"normalisation precision is `{norm_src(prec_arg)}`; names bound to get_precision(x): {sorted(own_prec)}"
-        r.ob("R13.4", f"{REL}::float2mpf normalisation precision", ok, detail, loc(REL, c))
-    # float2fraction: field sizes derived from finfo
-    f = repo.func(REL, "float2fraction")
-    env = {}
-    for st in ast.walk(f):
-        if isinstance(st, ast.Assign) and isinstance(st.targets[0], ast.Name):
-            env[st.targets[0].id] = norm_src(st.value)
-    ok = env.get("ssz") == "1" and env.get("esz") == "itype(fi.nexp)" and env.get("fsz") == "itype(-ssz - fi.negep)"
-    r.ob("R13.1", f"{REL}::float2fraction field sizes", ok, f"sign/exponent/fraction sizes are {env.get('ssz')}, {env.get('esz')}, {env.get('fsz')}; expected 1, nexp, -negep-1", loc(REL, f))
+    check_float2mpf(r, repo)
     return r
